@@ -263,8 +263,8 @@ func netBody(o netOpts, build func(nw *NetWorld)) func(ex *vsched.Exec) string {
 			nw.Check()
 		}
 		ex.Release()
-		vsched.Quiet(func() { na.StopForce() })
-		vsched.Quiet(func() { nb.StopForce() })
+		dropNode(na)
+		dropNode(nb)
 		return strings.Join(nw.out, " ")
 	}
 }
